@@ -1,7 +1,7 @@
 (* Props/C17.v — filter patterns are validated exactly by the documented glob
    syntax.  Only statements; every proof is [exact <lemma>]. *)
 From Coq Require Import List NArith.
-From AL Require Import Glob.Glob Glob.GlobSpec Glob.GlobFuel Glob.GlobProofs Glob.GlobCols.
+From AL Require Import Glob.Glob Glob.GlobSpec Glob.GlobFuel Glob.GlobProofs Glob.GlobCols Glob.GlobOld.
 Import ListNotations.
 
 (* glob_exact: ValidateRefGlob / ValidatePathGlob (as repaired by
@@ -76,3 +76,32 @@ Theorem C17_glob_diag_col : forall posCol quoted col,
   glob_error_col posCol quoted col = (posCol + (if quoted then 1 else 0) + (col - 1))%nat.
 Proof. exact glob_error_col_spec. Qed.
 Print Assumptions C17_glob_diag_col.
+
+(* The defects of the unrepaired validator (model Glob/GlobOld.v), one witness
+   each; repaired by repo_patches/glob/01..04 and modelled repaired above. *)
+Theorem C17_esc_name_old_refuted :
+  Old.validate_ref [92; 91]%N = Some [mkDiag RefChar 2 (NameChar 65533)] /\
+  Old.validate_ref [92; 91; 97]%N = Some [mkDiag RefChar 2 (NameChar 97)] /\
+  validate_ref [92; 91; 97]%N = Some [mkDiag RefChar 2 (NameChar 91)].
+Proof. exact esc_name_old_refuted. Qed.
+Print Assumptions C17_esc_name_old_refuted.
+
+Theorem C17_set_chars_old_refuted :
+  Old.validate_ref [91; 97; 10; 98; 93]%N = Some [] /\ Old.validate_path [91; 97; 10; 98; 93]%N = Some [] /\
+  ~ valid true [91; 97; 10; 98; 93]%N /\ ~ valid false [91; 97; 10; 98; 93]%N /\
+  Old.validate_ref [91; 32; 97; 98; 93]%N = Some [] /\ ~ valid true [91; 32; 97; 98; 93]%N /\
+  Old.validate_ref [91; 126; 97; 93]%N = Some [] /\ ~ valid true [91; 126; 97; 93]%N.
+Proof. exact set_chars_old_refuted. Qed.
+Print Assumptions C17_set_chars_old_refuted.
+
+Theorem C17_trail_col_old_refuted :
+  Old.validate_path [233; 32]%N = Some [mkDiag PathTrail 3 NoName] /\ length [233; 32]%N = 2%nat /\
+  validate_path [233; 32]%N = Some [mkDiag PathTrail 2 NoName].
+Proof. exact trail_col_old_refuted. Qed.
+Print Assumptions C17_trail_col_old_refuted.
+
+Theorem C17_neg_slash_old_refuted :
+  Old.validate_ref [33; 47; 97]%N = Some [] /\ ~ valid true [33; 47; 97]%N /\
+  validate_ref [33; 47; 97]%N = Some [mkDiag RefLead 2 (NameChar 47)].
+Proof. exact neg_slash_old_refuted. Qed.
+Print Assumptions C17_neg_slash_old_refuted.
